@@ -1102,17 +1102,18 @@ class MoneyConverter:
             raise ValueError(f"Not a valid period: {validity}.")
         # check type of validity
         type_of_validity = self._type_of_validity
-        if type_of_validity is None:
-            self._type_of_validity = type(validity)
-        elif type_of_validity is not type(validity):
+        if (type_of_validity is not None and
+                type_of_validity is not type(validity)):
             raise ValueError('Different types of validity periods given.')
-        # update internal dict
+        # create all exchange rates before updating the internal dict, so
+        # that an invalid rate spec does not cause a partial update
         base_currency = self._base_currency
-        it = (((validity, term_currency),
-               ExchangeRate(base_currency, unit_multiple, term_currency,
-                            term_amount))
-              for term_currency, term_amount, unit_multiple in rate_specs)
-        self._rate_dict.update(it)
+        items = [((validity, term_currency),
+                  ExchangeRate(base_currency, unit_multiple, term_currency,
+                               term_amount))
+                 for term_currency, term_amount, unit_multiple in rate_specs]
+        self._type_of_validity = type(validity)
+        self._rate_dict.update(items)
 
     def get_rate(self, unit_currency: Currency, term_currency: Currency,
                  effective_date: Optional[date] = None) \
